@@ -292,7 +292,7 @@ def _run_gp(P, record):
             "z": [[float(v) for v in p.extract_results(m)["z"]] for m in range(p.ensemble_size)]}
 
 
-def vector_pair(rng, force_scale=False):
+def vector_pair(rng, force_scale=False, array_targets=False):
     from rtctools.optimization.goal_programming_mixin import Goal, GoalProgrammingMixin
     from rtctools.optimization.timeseries import Timeseries
     from .. import problems
@@ -313,6 +313,12 @@ def vector_pair(rng, force_scale=False):
     scale = force_scale or rng.random() < 0.6
     weight = rng.choice([1.0, 2.0])
     desc = {"n": n, "E": E, "target_min": tmin.tolist(), "cap": cap, "order": order, "nominal": nom, "scale_by_problem_size": scale, "weight": weight}
+    if array_targets:
+        # one target per element, constant over time (plain arrays), a lower target for the first element only
+        amin = np.array([float(rng.randint(4, 7)), np.nan])
+        amax = np.array([float(rng.randint(8, 10)), float(rng.randint(1, 3))])
+        cap = [float(rng.randint(0, 2)), -float(rng.randint(1, 3))]
+        desc.update({"array_target_min": [amin[0], None], "array_target_max": amax.tolist(), "cap": cap})
 
     def caps():
         out = []
@@ -355,7 +361,8 @@ def vector_pair(rng, force_scale=False):
                     class V(Goal):
                         size = 2
                         priority = 1
-                        target_min = Timeseries(tarr, tmin)
+                        target_min = amin if array_targets else Timeseries(tarr, tmin)
+                        target_max = amax if array_targets else np.nan
                         function_range = (np.array([-40.0, -40.0]), np.array([40.0, 40.0]))
                         function_nominal = np.array(nom)
 
@@ -368,7 +375,8 @@ def vector_pair(rng, force_scale=False):
                     for k, nm in enumerate(("y", "z")):
                         class S(Goal):
                             priority = 1
-                            target_min = Timeseries(tarr, tmin[:, k].copy())
+                            target_min = float(amin[k]) if array_targets else Timeseries(tarr, tmin[:, k].copy())
+                            target_max = float(amax[k]) if array_targets else np.nan
                             function_range = (-40.0, 40.0)
                             function_nominal = nom[k]
                             _nm = nm
@@ -486,7 +494,9 @@ def minabs_pair(rng):
 
 def further_pairs(ctx):
     rng = ctx.rng
-    jobs = [("vector", vector_pair(rng, force_scale=(i < 2))) for i in range(ctx.n(4, 120))] + [("minabs", minabs_pair(rng)) for _ in range(ctx.n(4, 120))]
+    import random
+    jobs = [("vector", vector_pair(rng, force_scale=(i < 2))) for i in range(ctx.n(4, 120))] + [("minabs", minabs_pair(rng)) for _ in range(ctx.n(4, 120))] + \
+        [("vector", vector_pair(random.Random(170 + i), False, True)) for i in range(ctx.n(2, 20))]
     for kind, (desc, make) in jobs:
         outs = []
         for flag in (True, False):
